@@ -3098,11 +3098,11 @@ class Set(Collection):
         added = setdata.added
         removed = setdata.removed
         if to_add:
-            if removed: (to_add, setdata.removed) = (to_add - removed, removed - to_add)
+            if removed: to_add, removed = to_add - removed, removed - to_add; setdata.removed = removed
             if added: added |= to_add
-            else: setdata.added = to_add  # added may be None
+            else: added = setdata.added = to_add  # added may be None
         if to_remove and reverse.is_collection:  # one-to-many: reverse_remove (called through the item) has already recorded the removal
-            if added: (to_remove, setdata.added) = (to_remove - added, added - to_remove)
+            if added: to_remove, added = to_remove - added, added - to_remove; setdata.added = added
             if removed: removed |= to_remove
             else: setdata.removed = to_remove  # removed may be None
         cache.modified_collections[attr].add(obj)
